@@ -4,12 +4,15 @@ package props
 
 import (
 	"fmt"
+	"os"
 	"path/filepath"
+	"sort"
 	"strings"
 	"testing"
 	"time"
 
 	"github.com/jhalter/mobius/verifhooks"
+	"gopkg.in/yaml.v3"
 	"pgregory.net/rapid"
 
 	"verif/harness/evid"
@@ -254,6 +257,38 @@ func c17prop(ev *evid.Rec) func(rt *rapid.T) {
 						bans[ip] = banEntry{expiry: t}
 					}
 					checkFile("after ban-list add")
+				},
+				"operatorUnban": func(rt *rapid.T) {
+					// the operator removes an entry from the ban file by hand and has the server reload it: the address is
+					// no longer banned (what the server held in memory before does not matter any more)
+					var banned []string
+					for ip := range bans {
+						banned = append(banned, ip)
+					}
+					sort.Strings(banned)
+					if len(banned) == 0 {
+						rt.Skip()
+					}
+					ip := rapid.SampledFrom(banned).Draw(rt, "unban")
+					rec("operator removes %s from the ban file and reloads", ip)
+					path := filepath.Join(w.Cfg, "Banlist.yaml")
+					b, err := os.ReadFile(path)
+					if err != nil {
+						fail("harness: %v", err)
+					}
+					var doc map[string]*time.Time
+					if err := yaml.Unmarshal(b, &doc); err != nil {
+						fail("harness: ban file: %v", err)
+					}
+					delete(doc, ip)
+					out, _ := yaml.Marshal(doc)
+					must(os.WriteFile(path, out, 0o644))
+					if err := w.Bans.Load(); err != nil {
+						fail("reload of the ban file: %v", err)
+					}
+					delete(bans, ip)
+					checkFile("after the operator's edit")
+					nt = true
 				},
 				"restart": func(rt *rapid.T) {
 					rec("restart")
